@@ -80,6 +80,7 @@ class Path:
 
     name = "?"
     ninner = 1
+    own_cancel = False  # the path issues the cancellation itself, at a point of its own: no cancellation is injected per task step
 
     def __init__(self, log: Callable[[dict[str, Any]], None], fail_inner: int = 0) -> None:
         self.log = log
@@ -393,6 +394,48 @@ class ServerSideClient(Path):
 class ServerSideClientBehindSender(ServerSideClient):
     name = "server-side client aclose behind a suspended send_packet"
     behind_sender = True
+
+
+class ServerSideClientLockHandOver(ServerSideClient):
+    """The cancellation of the server-side client's aclose() arrives at the very instant the send lock is handed over to it: the
+    suspended sender is unblocked once aclose() is parked on the lock, and the cancel() is issued by the sender's task in the step
+    in which it releases the lock - after the hand-over, before the closing task runs again.  (Cancelled while the sender is still
+    inside the transport, nothing is closed on the unchanged tree: that is F9, on the path above.)"""
+
+    name = "server-side client aclose cancelled at the hand-over of the send lock"
+    behind_sender = False
+    own_cancel = True  # (a cancellation injected earlier finds the sender inside the transport: F9 again)
+
+    async def setup(self) -> None:
+        await super().setup()
+        self._target: Any = None
+        self.mc.from_server.capacity = 16
+
+        async def sender() -> None:
+            try:
+                await self.client.send_packet("x" * 4096)
+            finally:
+                if self._target is not None and not self._target.done():
+                    self.log({"ev": "cancel"})
+                    self._target.cancel()
+
+        self._sender = asyncio.ensure_future(_swallow(sender()))
+        for _ in range(5):
+            await asyncio.sleep(0)
+        self.cleanup.insert(0, self._sender.cancel)
+
+    def close(self) -> Awaitable[None]:
+        def unblock() -> None:
+            self.mc.from_server.capacity = 10**9
+            self.mc.from_server.wake_writers()
+
+        async def go() -> None:
+            if self._target is None:  # (the second close is a plain aclose())
+                self._target = asyncio.current_task()
+                asyncio.get_running_loop().call_soon(unblock)
+            await self.client.aclose()
+
+        return go()
 
 
 class ServerSideTeardownBehindSender(Path):
@@ -827,6 +870,7 @@ PATHS: list[type[Path]] = [
     SocketAdapter,
     ServerSideClient,
     ServerSideClientBehindSender,
+    ServerSideClientLockHandOver,
     DatagramSocketAdapter,
     ListenerAdapter,
     TCPClientWhileConnecting,
@@ -945,7 +989,7 @@ def run(chk: Check) -> None:
                 # (behind a sender that the peer never unblocks, a graceful close legitimately waits for ever: only its cancellation is of interest)
                 rec.append({"inners": cls.ninner, "events": evs, "meta": f"{cls.name} cancel=none fail_inner={fail} steps={nsteps}"})
                 nruns += 1
-            for k in range(1, nsteps + 1):  # k = 0 would cancel a close that has not started
+            for k in range(1, 0 if cls.own_cancel else nsteps + 1):  # k = 0 would cancel a close that has not started
                 try:
                     evs2, _ = vloop.run(lambda: _run_once(cls, k, fail), spin_limit=5000)
                 except vloop.VirtualDeadlock:
